@@ -55,6 +55,11 @@ def run(ctx):
     ctx.assumptions += ['etcd transactions are atomic and linearizable (embedded etcd is the real etcd server)',
                         'exhaustive exploration uses Step=2 (the code uses 1000); simulation/replay uses Step=1000']
     ctx.mc('id', 'MC_IdAlloc', 'MC_IdAlloc.cfg' if q else 'MC_IdAlloc_thorough.cfg', timeout=1500, coverage=q)
+    # the same algorithm with the crash / leader-switch budgets removed: an inductive invariant, discharged symbolically (any number of steps)
+    ctx.apalache('id', 'IdAllocInd', 'Init', 'IndInv', 0)
+    ctx.apalache('id', 'IdAllocInd', 'IndInv', 'IndInv', 1)
+    ctx.apalache('id', 'IdAllocInd', 'IndInv', 'Unique', 0)
+    ctx.apalache('id', 'IdAllocInd', 'IndInv', 'WindowInMemoryBelowStored', 0)
     seeds = [ctx.seed] if q else [ctx.seed + k for k in range(4)]
     for sd in seeds:
         behs = ctx.simulate('id', 'MC_IdAlloc', 'Sim_IdAlloc.cfg', num=150 if q else 600, depth=40, seed=sd)
